@@ -158,3 +158,28 @@ def frame_rows_clauses(inp_frame, out_frame, rids, prefix="", cols=None):
         for j, r in enumerate(rids):
             cl.append((f"{prefix}{name}[{j}] is input row {r}", cell_ident(ocol.cells[j], icol.cells[r], k)))
     return cl
+
+def summary_equal(a, ka, b, kb):
+    """two summary cells denote the same value: both missing, or equal non-missing values
+    (dtype may differ: a missing float is NaN in a float column and None in an object column)"""
+    def num(c, k):
+        if k == "f": return c
+        if k == "i": return symx.fp_of_bv(c)
+        if k == "O" and isinstance(c, SymF64): return c.e
+        if k == "O" and isinstance(c, SymI64): return symx.fp_of_bv(c.e)
+        return None
+    def na(c, k):
+        if k == "O":
+            if c is None: return T(True)
+            if isinstance(c, SymF64): return z3.fpIsNaN(c.e)
+            return T(False)
+        return isna(c, k)
+    na_a, na_b = na(a, ka), na(b, kb)
+    if ka == kb and ka != "O":
+        same = cell_ident(a, b, ka)
+    else:
+        xa, xb = num(a, ka), num(b, kb)
+        if xa is not None and xb is not None: same = xa == xb
+        elif a is None or b is None: same = T(False)
+        else: same = cell_ident(a, b, "O") if ka == kb else T(False)
+    return z3.Or(z3.And(na_a, na_b), z3.And(z3.Not(na_a), z3.Not(na_b), same))
